@@ -253,3 +253,70 @@ theorem elemIB_of_inside (bx : Box) (e : Elem) (bb : Box) (hbb : bboxOf (elemVer
     exact List.mem_flatten.mpr ⟨r', List.mem_flatten.mpr ⟨rs, hrs, hr'⟩, hq'⟩
 
 end SpVerif.Frames
+
+namespace SpVerif.Geom
+
+/-- every side of the bounding box is attained by a vertex -/
+theorem bboxOf_attains (l : List Pt) (bb : Box) (h : bboxOf l = some bb) :
+    (∃ v ∈ l, v.1 = bb.x0) ∧ (∃ v ∈ l, v.2 = bb.y0) ∧ (∃ v ∈ l, v.1 = bb.x1) ∧ (∃ v ∈ l, v.2 = bb.y1) := by
+  induction l generalizing bb with
+  | nil => simp [bboxOf] at h
+  | cons q qs ih =>
+    simp only [bboxOf] at h
+    cases hq : bboxOf qs with
+    | none =>
+      rw [hq] at h
+      simp only [Option.some.injEq] at h
+      subst h
+      exact ⟨⟨q, by simp, rfl⟩, ⟨q, by simp, rfl⟩, ⟨q, by simp, rfl⟩, ⟨q, by simp, rfl⟩⟩
+    | some b =>
+      rw [hq] at h
+      simp only [Option.some.injEq] at h
+      subst h
+      obtain ⟨⟨v1, m1, e1⟩, ⟨v2, m2, e2⟩, ⟨v3, m3, e3⟩, ⟨v4, m4, e4⟩⟩ := ih b hq
+      refine ⟨?_, ?_, ?_, ?_⟩
+      · by_cases hc : q.1 ≤ b.x0
+        · exact ⟨q, by simp, by simp only; omega⟩
+        · exact ⟨v1, by simp [m1], by simp only; omega⟩
+      · by_cases hc : q.2 ≤ b.y0
+        · exact ⟨q, by simp, by simp only; omega⟩
+        · exact ⟨v2, by simp [m2], by simp only; omega⟩
+      · by_cases hc : b.x1 ≤ q.1
+        · exact ⟨q, by simp, by simp only; omega⟩
+        · exact ⟨v3, by simp [m3], by simp only; omega⟩
+      · by_cases hc : b.y1 ≤ q.2
+        · exact ⟨q, by simp, by simp only; omega⟩
+        · exact ⟨v4, by simp [m4], by simp only; omega⟩
+
+/-- discrete intermediate value: a list with a vertex satisfying `P` and one not satisfying it has two consecutive vertices
+on which `P` differs -/
+theorem exists_seg_change (P : Pt → Prop) [DecidablePred P] (l : List Pt) (h1 : ∃ v ∈ l, P v) (h2 : ∃ v ∈ l, ¬ P v) :
+    ∃ s ∈ segs l, (P s.1 ∧ ¬ P s.2) ∨ (¬ P s.1 ∧ P s.2) := by
+  match l with
+  | [] => obtain ⟨v, hv, _⟩ := h1; cases hv
+  | [a] =>
+    obtain ⟨v, hv, pv⟩ := h1; obtain ⟨w, hw, pw⟩ := h2
+    simp only [List.mem_singleton] at hv hw
+    subst hv; subst hw; exact absurd pv pw
+  | a :: b :: rest =>
+    by_cases hab : (P a ∧ ¬ P b) ∨ (¬ P a ∧ P b)
+    · exact ⟨(a, b), by simp [segs], hab⟩
+    · -- P a ↔ P b: the tail still has both kinds
+      have hiff : P a ↔ P b := by
+        by_cases pa : P a <;> by_cases pb : P b <;> simp_all
+      have t1 : ∃ v ∈ b :: rest, P v := by
+        obtain ⟨v, hv, pv⟩ := h1
+        simp only [List.mem_cons] at hv
+        rcases hv with rfl | hv
+        · exact ⟨b, by simp, hiff.mp pv⟩
+        · exact ⟨v, by simpa using hv, pv⟩
+      have t2 : ∃ v ∈ b :: rest, ¬ P v := by
+        obtain ⟨v, hv, pv⟩ := h2
+        simp only [List.mem_cons] at hv
+        rcases hv with rfl | hv
+        · exact ⟨b, by simp, fun hb => pv (hiff.mpr hb)⟩
+        · exact ⟨v, by simpa using hv, pv⟩
+      obtain ⟨s, hs, hc⟩ := exists_seg_change P (b :: rest) t1 t2
+      exact ⟨s, by simp [segs, hs], hc⟩
+
+end SpVerif.Geom
